@@ -26,32 +26,76 @@ Definition merge (acc entries : smap) : smap := fold_left (fun a kv => sput a (f
 Definition append_all (acc entries : smap) : smap := acc ++ entries.
 End Merge.
 
-(* ---- pooled scope maps: Push takes a map from the pool, Pop clears it and puts it back ---- *)
+(* ---- pooled scope maps (stack.go: Push / Pop / Set and the process-wide mapPool) ----
+   Push(nil) takes a map from the pool (or a new one); Push(m) puts the CALLER's map m on the stack;
+   Pop clears a map and hands it to the pool only when it came from the pool, is not the bottom
+   scope and is not empty; a caller's map is released as it is (with what was set while it was on
+   top); popping the last scope leaves one new empty scope.  Scopes are association lists, newest
+   binding first. *)
 Section Pool.
 Variable val : Type.
 Definition pscope := list (bytes * val).
-Record pstate := { pstack : list pscope; ppool : list pscope }.
-Inductive pop_ := PPush | PPop | PSet (k : bytes) (v : val).
+Inductive pkind := KPool | KOwn (id : nat) | KRoot.
+Definition is_pool (k : pkind) : bool := match k with KPool => true | _ => false end.
+Record pstate := { pstack : list (pscope * pkind);      (* top first *)
+                   ppool : list pscope;                  (* what waits in the pool *)
+                   pout : list (nat * pscope) }.         (* callers' maps as released, newest first *)
+Inductive pop_ := PPush | PPushOwn (id : nat) (m : pscope) | PPop | PSet (k : bytes) (v : val).
+Definition nonempty {A} (l : list A) : bool := match l with [] => false | _ => true end.
+Definition released (k : pkind) (m : pscope) (out : list (nat * pscope)) :=
+  match k with KOwn id => (id, m) :: out | _ => out end.
+Definition refill (r : list (pscope * pkind)) := match r with [] => [([], KRoot)] | _ => r end.
 Definition pstep (s : pstate) (o : pop_) : pstate :=
   match o with
   | PPush => match ppool s with
-             | m :: r => {| pstack := m :: pstack s; ppool := r |}      (* reuse *)
-             | [] => {| pstack := [] :: pstack s; ppool := [] |}        (* New *)
+             | m :: r => {| pstack := (m, KPool) :: pstack s; ppool := r; pout := pout s |}      (* reuse *)
+             | [] => {| pstack := ([], KPool) :: pstack s; ppool := []; pout := pout s |}        (* New *)
              end
+  | PPushOwn id m => {| pstack := (m, KOwn id) :: pstack s; ppool := ppool s; pout := pout s |}
   | PPop => match pstack s with
-            | _ :: r => {| pstack := r; ppool := [] :: ppool s |}       (* clear, then Put *)
+            | (m, k) :: r =>
+                {| pstack := refill r;
+                   ppool := if is_pool k && nonempty r && nonempty m then [] :: ppool s else ppool s;  (* clear, then Put *)
+                   pout := released k m (pout s) |}
             | [] => s
             end
   | PSet k v => match pstack s with
-                | m :: r => {| pstack := ((k, v) :: m) :: r; ppool := ppool s |}
-                | [] => s
+                | (m, kd) :: r => {| pstack := ((k, v) :: m, kd) :: r; ppool := ppool s; pout := pout s |}
+                | [] => {| pstack := [([(k, v)], KRoot)]; ppool := ppool s; pout := pout s |}
                 end
   end.
-Definition pstep_fresh (st : list pscope) (o : pop_) : list pscope :=
+(* the specification: every Push(nil) gets a brand-new map and nothing is ever reused *)
+Record fstate := { fstack : list (pscope * pkind); fout : list (nat * pscope) }.
+Definition pstep_fresh (s : fstate) (o : pop_) : fstate :=
   match o with
-  | PPush => [] :: st
-  | PPop => match st with _ :: r => r | [] => [] end
-  | PSet k v => match st with m :: r => ((k, v) :: m) :: r | [] => [] end
+  | PPush => {| fstack := ([], KPool) :: fstack s; fout := fout s |}
+  | PPushOwn id m => {| fstack := (m, KOwn id) :: fstack s; fout := fout s |}
+  | PPop => match fstack s with
+            | (m, k) :: r => {| fstack := refill r; fout := released k m (fout s) |}
+            | [] => s
+            end
+  | PSet k v => match fstack s with
+                | (m, kd) :: r => {| fstack := ((k, v) :: m, kd) :: r; fout := fout s |}
+                | [] => {| fstack := [([(k, v)], KRoot)]; fout := fout s |}
+                end
   end.
+Definition pview (s : pstate) : fstate := {| fstack := pstack s; fout := pout s |}.
 Definition pool_clean (s : pstate) : Prop := Forall (fun m => m = []) (ppool s).
+(* the twin that forgets to clear: Pop hands the map back as it is *)
+Definition pstep_dirty (s : pstate) (o : pop_) : pstate :=
+  match o with
+  | PPop => match pstack s with
+            | (m, k) :: r => {| pstack := refill r;
+                                ppool := if is_pool k && nonempty r && nonempty m then m :: ppool s else ppool s;
+                                pout := released k m (pout s) |}
+            | [] => s
+            end
+  | _ => pstep s o
+  end.
+(* what a lookup sees: the newest binding of the key in the topmost scope that has one *)
+Fixpoint plookup (st : list (pscope * pkind)) (k : bytes) : option val :=
+  match st with
+  | [] => None
+  | (m, _) :: r => match sget val m k with Some v => Some v | None => plookup r k end
+  end.
 End Pool.
